@@ -19,10 +19,10 @@ def c19(tier):
         runs.append(H("c19_partition", "dist-asan", 30, None, env=ENV, mpi=3, params=dict(salt=13, maxnodes=600),
                       timeout_per_case=120, timeout_base=240))
     else:
-        for np, cases in ((1, 90), (2, 420), (3, 420), (4, 420)):
+        for np, cases in ((1, 60), (2, 300), (3, 300), (4, 300)):
             runs.append(H("c19_partition", "dist", cases, None, env=ENV, mpi=np, params=dict(salt=np),
                           timeout_per_case=90, timeout_base=240))
-        for np, cases in ((1, 30), (2, 90), (3, 90), (4, 90)):
+        for np, cases in ((1, 30), (2, 60), (3, 60), (4, 60)):
             runs.append(H("c19_partition", "dist-asan", cases, None, env=ENV, mpi=np,
                           params=dict(salt=10 + np, maxnodes=1500, nohuge=1), timeout_per_case=180, timeout_base=300))
     return runs
@@ -41,7 +41,7 @@ SPEC = dict(
                "policy classes NoCommunication, GenericHVC, GenericCVC, GenericCVCColumnFlip, GingerP, FennelP, SugarP, "
                "SugarColumnFlipP) plus MiningGraph<MiningPolicyDegrees|Naive> is run on 1, 2, 3 and 4 MPI hosts with 1-2 "
                "threads, with the default arguments of Input.h and with generated options (cuspAsync on/off, stateRounds "
-               "1/2/3/7/100, the three read-balancing policies with node/edge weights, a masters block file for oec/iec), edge "
+               "1/2/3/7/25/100, the three read-balancing policies with node/edge weights, a masters block file for oec/iec), edge "
                "data void / uint32 / void over a file that carries data, on generated graphs (isolated nodes, no edges at all, "
                "stars and hubs with > 1000 edges, fewer nodes than hosts, hosts without nodes or edges, self loops, parallel "
                "edges, paths, grids, power-law, dense, random; thorough tier: a few graphs with ~2M edges so that send buffers "
@@ -58,12 +58,16 @@ SPEC = dict(
                "communicator, and that the public accessors report the state the applications see. The peer's master lists "
                "are built by Gluon from the mirror lists (C18); here the partition-level fact is checked: every entry of A's "
                "mirror list for B is a mirror proxy on A and a master on B. Message arrival orders are whatever MPI and the OS "
-               "produce plus one sleeping host and failpoint noise per case.",
+               "produce plus one sleeping host and failpoint noise per case. A fatal signal or ASan report inside the library "
+               "call on any rank is turned into a violation event with a deterministic key (C19:<policy>[/no-edges|/nodes<hosts|"
+               "+mastersFile]:crash-<SIGNAL> or :asan-<kind>) by handlers in the harness, which then leaves with exit code 3 "
+               "(driver: violation recorded, restart after this case).",
     rule="case = (Input.h scheme x direction -> policy class, input/output format, symmetric) x options (defaults or cuspAsync, "
          "stateRounds, read policy, weights, masters file) x edge data mode x threads x generated graph, on one host count; "
          "non-trivial iff >= 2 hosts, the graph has an edge and (some mirror proxy exists or at least two hosts hold edges); "
-         "distinct by (scheme/direction, hosts, threads, graph kind, edge data mode, option class, masters file, whether a host "
-         "got no node)",
+         "distinct by (scheme/direction, hosts, threads, graph kind, edge data mode, the options that can influence the run "
+         "[async/bsp and rounds class 1/few/many only for policies with a master assignment phase; read policy unless a "
+         "masters file overrides it], masters file, whether a host got no node)",
     require={"edges_checked": 100000, "proxies_checked": 30000, "mirrors": 5000, "mirror_list_entries": 5000,
              "policy_checked_edges": 100000, "hostid_queries": 30000, "hosts_without_nodes": 5, "hosts_without_edges": 20,
              "cases_nodes_lt_hosts": 2, "sources_over_1000_edges": 5, "sources_placed_at_destination_masters": 1,
